@@ -360,7 +360,13 @@ fn chunker_config_from_params<R>(
     let algorithm = ChunkingAlgorithm::try_from(p.chunking_algorithm);
     // Parameters no chunker can work with (it would panic or never make progress).
     let valid = match algorithm {
-        Ok(ChunkingAlgorithm::Buzhash) | Ok(ChunkingAlgorithm::Rollsum) => {
+        Ok(ChunkingAlgorithm::Buzhash) => {
+            // The first window of a stream is always consumed as a whole.
+            p.rolling_hash_window_size > 0
+                && p.rolling_hash_window_size <= p.max_chunk_size
+                && p.min_chunk_size <= p.max_chunk_size
+        }
+        Ok(ChunkingAlgorithm::Rollsum) => {
             p.rolling_hash_window_size > 0
                 && p.max_chunk_size > 0
                 && p.min_chunk_size <= p.max_chunk_size
